@@ -468,6 +468,11 @@ impl<'a> Driver<'a> {
                 }
             }
         }
+        // the lists of offending moves only have to be non-empty to count; a fault that touches every move must not flood the log
+        bad_err.truncate(40);
+        bad_ok.truncate(40);
+        panics.truncate(40);
+        bad_play.truncate(40);
         self.out.emit(
             "tryplay",
             &format!(
